@@ -21,6 +21,9 @@ Part D (kind of the value a computed key evaluates to x site that turns a key in
 Part E (re-entry, spec/C08.tla): same pipeline; a cell is a function that refers to itself (own name of a named function
   expression, declaration / variable of the enclosing scope, captured by a nested closure) x the call form that enters it x the
   call form of the inner call it makes through that reference; this / arguments / instance linkage of three levels are judged.
+Part F (derivation chains, spec/C08.tla): same pipeline; a cell is a base function of some kind with a chain of bind levels on top
+  (each level with its own this and its own number of bound arguments) x the form that calls the outermost function; this,
+  all arguments, parameters, instance linkage, length, name, and the function one level below (unchanged by the re-bind) are judged.
 Python never computes an expected value.
 """
 import json, os, random, collections, time
@@ -284,7 +287,7 @@ def part_callforms(rep):
     for i, c in enumerate(cells):
         c["id"] = i
     rep.spaces.append({"space": "call form x function kind, plus new-return rules and constructor chains",
-                       "cases": sum(1 for c in cells if c["form"] not in ("tv", "key", "re")), "complete": True})
+                       "cases": sum(1 for c in cells if c["form"] not in ("tv", "key", "re", "bc")), "complete": True})
     ntv = sum(1 for c in cells if c["form"] == "tv")
     if ntv < 300:
         raise Machinery("this-value enumeration produced only %d cells" % ntv)
@@ -302,7 +305,13 @@ def part_callforms(rep):
     rep.spaces.append({"space": "re-entry: how the function refers to itself x call form entering level 0 x call form of the inner "
                                 "call through the self-reference (%s grid), three levels observed" % rep.tier,
                        "cases": nre, "complete": True})
-    rep.notes["cells"] = {"call_forms": len(cells) - ntv - nkey - nre, "this_value": ntv, "key_kind": nkey, "re_entry": nre}
+    nbc = sum(1 for c in cells if c["form"] == "bc")
+    if nbc < 150:
+        raise Machinery("derivation-chain enumeration produced only %d cells" % nbc)
+    rep.spaces.append({"space": "derivation chains: base function kind x chain of bind levels (0-2 bound arguments per level, depth 1-3) "
+                                "x form calling the outermost function (%s grid)" % rep.tier, "cases": nbc, "complete": True})
+    rep.notes["cells"] = {"call_forms": len(cells) - ntv - nkey - nre - nbc, "this_value": ntv, "key_kind": nkey, "re_entry": nre,
+                          "bind_chain": nbc}
     results = engine.run_cases(pid, cells, driver="checks.c08_driver:cell_driver", tag="calleng")
     byid = {c["id"]: c for c in cells}
     dv = sorted(rep.findings)          # the chain cells also meet object-model deviations
@@ -319,6 +328,8 @@ def part_callforms(rep):
             label = "key kind %s (%s, name %r) written by %s, then %s" % (c["kind"], drv.KEY_EXPR[c["kind"]], c["name"], c["via"], c["ret"])
         elif c["form"] == "re":
             label = "re-entry: %s function entered by %s, inner %s call through its self-reference" % (c["kind"], c["via"], c["ret"])
+        elif c["form"] == "bc":
+            label = "bind chain %s over a %s function (digits: arguments bound per level), called by %s" % (c["via"], c["kind"], c["ret"])
         elif c["form"] == "tv":
             label = "this-value %s through %s x kind %s" % (c["ret"], c["via"], c["kind"])
         else:
@@ -332,6 +343,12 @@ def part_callforms(rep):
 
 
 def run(rep):
+    if os.environ.get("C08_PARTS") == "cells":       # scratch runs (mutant trials on the cell tables alone); never the recorded evidence
+        rep.notes["phase_wall_s"] = {}
+        rep.notes["observations_judged"] = 0
+        rep.evaluations = part_callforms(rep)
+        rep.exhaustive = False
+        return
     n1 = part_histories(rep)
     t0 = time.time()
     n2 = part_callforms(rep)
